@@ -29,6 +29,8 @@ def exprs(W):
     E.append(f"zext(s.a {cmp_} {lits[-2]}, {W})" if W > 1 else f"s.a {cmp_} {lits[-2]}")
     E.append(f"s.a if s.a {cmp_} s.b else s.b")
     E.append(f"(s.a + 1) if (s.a + s.b) {cmp_} s.a else 0")
+  if W > 2:
+    E += [f"s.a & Bits{W}(~3)", f"s.a | Bits{W}(~0)", f"s.a + Bits{W}(-1)", f"s.a ^ Bits{W}(-2)", f"Bits{W}(~1) & s.b", f"s.a & ~3" if W <= 2 else f"s.a & Bits{W}(~2)"]
   E += [f"~s.a", f"~(s.a + s.b)", f"~s.a + 1", f"s.a if s.c else {M}", f"({M} if s.c else 0) & s.a",
         f"s.a + (1 if s.c else 0)", f"(s.a >> 1) + (s.b >> 1)", f"(s.a + s.b) >> 1", f"(s.a << 1) >> 1"]
   if W > 1:
